@@ -12,13 +12,17 @@ CFG = {
         "Leptos.Hydrate.C05_hydrate_parsed",
         # the hydrated state is a client-built state up to node identity (any DOM, any cursor)
         "Leptos.Hydrate.C05_state_eq_build_state_mod_ids",
-        # the DOM after hydration shows what a client-built DOM shows, comments aside (partial: no empty string) + refutation of the full form
+        # the writes of the repaired hydrate do not disturb the walk; the DOM after hydration shows what a client-built DOM shows,
+        # comments aside, for all views incl. the empty string
+        "Leptos.Hydrate.C05_walk_commutes_with_writes",
+        "Leptos.Hydrate.C05_initial_dom_like_csr",
         "Leptos.Hydrate.C05_initial_dom_like_csr_partial",
-        "Leptos.Hydrate.C05_initial_dom_like_csr_full_false",
-        # refutation of "then like CSR" (F-C05-1), kernel-evaluated
+        # regression witnesses of the repaired defects F-C05-1 / F-C05-3 (kernel-evaluated: old code fails, current code passes)
         "Leptos.Hydrate.C05_empty_text_witness",
         "Leptos.Hydrate.C05_empty_text_witness_mid",
-        "Leptos.Hydrate.C05_then_like_csr_full_false",
+        "Leptos.Hydrate.C05_then_like_csr_old_false",
+        "Leptos.Hydrate.C05_initial_dom_old_witness",
+        "Leptos.Hydrate.C05_fragment_parent_witness",
         # F-C05-2 (outside the grammar of the theorems): raw-text elements keep no child state
         "Leptos.Hydrate.C05_raw_text_child_witness",
         # the lemmas the view theorems rest on
@@ -37,6 +41,9 @@ CFG = {
         "Leptos.Hydrate.setAttrs_spec",
         "Leptos.Hydrate.nodupAttrs_dom",
         "Leptos.Hydrate.initial_view",
+        "Leptos.Hydrate.initialA_view",
+        "Leptos.Hydrate.hydrate_congr",
+        "Leptos.Hydrate.settle_sameShape",
         "Leptos.Hydrate.attrs_like_csr",
         "Leptos.Hydrate.sibling_next",
         "Leptos.Hydrate.next_node",
@@ -55,7 +62,7 @@ CFG = {
             "(markup characters, entity-like text, `<!>`, `-->`, non-ASCII, white space) with the empty string at 1/6, attribute kinds fixed per tag (with RAW_TEXT_CASES = true in the "
             "harness, off until class raw-text-child is listed: 1 container in 40 is a <textarea>/<style> with one string child); "
             "B = A with every dynamic choice re-drawn (strings changed or kept, Option toggled, Either switched, Vec cleared / halved / extended, "
-            "1/25 of the nodes replaced by a different view); 1 case in 12 is a `mis` op (A hydrated against the DOM of another view: the walk's "
+            "1/25 of the nodes replaced by a different view); 1 case in 14 is a `frag` op (an element with children pre.., Fragment(items A), post.., rebuilt with items B); 1 in 12 a `mis` op (A hydrated against the DOM of another view: the walk's "
             "error paths). distinct = distinct op line; a case is trivial (`plain`) when it has no tag (no adjacent strings, no empty string, no "
             "dynamic node, no void/child-less element, no attribute, no change on rebuild)",
     "trusted": [
@@ -83,13 +90,16 @@ CFG = {
         "grammar: ordinary containers and void elements of the parser table, nested as the HTML tree builder accepts without implied end tags "
         "(C06's assumption); strings free of NUL/CR (F-C06-3/4); plain / boolean / optional attributes with distinct tokenizable names "
         "(class and style values are normalised differently by SSR and by the DOM: C03/C06); tuples of at most 6 components in the harness",
-        "not covered: Keyed, StaticVec / Fragment (nested tuples are), InertElement and view! templates (FROM_SERVER = false), islands, "
+        "not covered: Keyed, StaticVec / Fragment elsewhere than as a child of an element (nested tuples are), InertElement and view! templates (FROM_SERVER = false), islands, "
         "inner_html; raw-text elements with children are modelled and exercised but outside the theorems' grammar (F-C05-2), "
         "<pre>/<textarea> leading-newline and table/select foster-parenting rules of the HTML parser (outside the parser subset)",
         "C05_hydrate_succeeds quantifies over every DOM that holds domOf v (predicate Realises); C05_load_realises proves that the loader of the "
         "harness (one node per parsed node, in document order) produces such a DOM; the driver re-evaluates both on every case (model self-check)",
-        "C05_then_like_csr_partial_stmt (no empty string in A => hydrated-then-rebuilt = client-built-then-rebuilt, comments aside) is OPEN as a "
-        "theorem: it is evaluated on every generated pair by the model and by the real code, and kernel-checked on the examples",
+        "C05_then_like_csr_stmt (hydrated-then-rebuilt = client-built-then-rebuilt, comments aside; no exclusion since the repair of F-C05-1) is "
+        "OPEN as a theorem: it is evaluated on every generated pair by the model and by the real code, and kernel-checked on the examples",
+        "the repaired hydrate writes during the walk; the model performs the walk first and the writes afterwards (settle), justified by "
+        "C05_walk_commutes_with_writes; that the DOM after settle serialises to domA is evaluated by the driver on every case",
+        "StaticVec / Fragment is modelled only as one child of an element (children pre.., Fragment(items), post..): F-C05-3 and its repair",
     ],
     "manifest": {
         "category": "proof",
@@ -98,10 +108,12 @@ CFG = {
                 "bound): the HTML parser reads the SSR string as exactly the expected node sequence incl. the <!> markers and the ' ' of an "
                 "empty string; on every DOM holding that sequence the cursor walk of hydrate::<true> reaches no failed_to_cast branch, creates "
                 "no node and returns exactly the state that adopts the existing nodes front to back (kinds and text data as retained); whenever "
-                "the walk succeeds the state equals a client-built state up to node identity; for views without an empty string the DOM after "
-                "hydration shows, comments aside, exactly what a client-side build shows (same elements, attributes, text). 'Behaves like a "
-                "client-built view' is refuted in general by a kernel-evaluated witness (F-C05-1: the empty string stays ' ' after hydration); "
-                "equivalence under later rebuilds is established by differential testing only (statement OPEN). Tied to the code by a byte-for-byte differential run: real to_html (+ both stream "
+                "the walk succeeds the state equals a client-built state up to node identity; the DOM after "
+                "hydration shows, comments aside, exactly what a client-side build shows (same elements, attributes, text). Two defects found by this "
+                "property were repaired in /repo (F-C05-1: the adopted ' ' of an empty string is now reset to ''; F-C05-3: an empty StaticVec "
+                "hydrated as first child recorded the grandparent as its parent); their pre-repair behaviour is kept as *Old definitions with "
+                "kernel-evaluated regression witnesses. Equivalence under later rebuilds is established by differential testing only (statement "
+                "OPEN); raw-text elements keep no child state (F-C05-2, known finding). Tied to the code by a byte-for-byte differential run: real to_html (+ both stream "
                 "forms) -> independent Rust HTML parser -> native DOM -> real hydrate::<true> (outcome / error kind, nodes created) -> real "
                 "rebuild, against a client-built twin; the Lean parser is compared with the Rust parser on every SSR string.",
         "design_ref": "DESIGN.md §6.3, §6.4, §7 C05, §8 F-C05-1",
